@@ -139,6 +139,7 @@ class MomentumMPS:
         hdf5_loader.memorize_load(h5gr, obj)
 
         obj._X = hdf5_loader.load(subpath + 'tensors')
+        obj.dtype = np.result_type(*(X.dtype for X in obj._X))
         obj.uMPS_GS = hdf5_loader.load(subpath + 'GS_uMPS')
         obj.p = hdf5_loader.load(subpath + 'momentum')
         obj.n_sites = hdf5_loader.get_attr(h5gr, 'n_sites')
